@@ -865,6 +865,14 @@ int parse_instruction_tms340(AsmContext *asm_context, char *instr)
                 break;
               }
             }
+              else
+            {
+              if (operands[i].value < -32768 || operands[i].value > 0xffff)
+              {
+                print_error_range(asm_context, "Immediate", -32768, 0xffff);
+                return -1;
+              }
+            }
 
             if (table_tms340[n].operand_types[i] == OP_IW)
             {
@@ -991,6 +999,13 @@ int parse_instruction_tms340(AsmContext *asm_context, char *instr)
               if (operands[i].use_long == 0)
               {
                 offset = operands[i].value - (asm_context->address + 2);
+
+                if ((offset & 1) != 0)
+                {
+                  print_error_align(asm_context, 2);
+                  return -1;
+                }
+
                 opcode |= (offset >> 1) & 0xff;
               }
                 else
